@@ -26,6 +26,14 @@ CLAIMED = {
          'repeat loop bound (at most repeat_limit invocations) with loop invariants; skip_phase',
          'thread start/join, the user phase body, run_if and diagnosers are opaque (trusted model: contracts/_trusted.py, frame assumption *user); '
          'DiagnosesManager._convert_result (generator) is assumed, not verified; known finding: ERROR record left behind by forced repeats'),
+ 'C08': ('PlugManager.initialize_plugs constructs only the requested plug types (the given list, else the declared set), never a type that already has an '
+         'instance, each type at most once, registers every instance it constructed and keeps existing ones; on any constructor / validation failure everything '
+         'constructed so far is torn down and the error propagates; tear_down_plugs starts exactly one tearDown thread per registered instance (in order), only '
+         'waits for it with the configured timeout, kills it when still alive and clears the maps; TestExecutor._initialize_plugs turns a failure into a '
+         'terminal error outcome; _execute_test_teardown tears plugs down before finalizing whatever the outcome',
+         'plug classes / instances are opaque objects (construction, tearDown, uses_base_tear_down, issubclass are uninterpreted); Thread.start is trusted to run '
+         'the tearDown; provide_plugs (same instance under the requested name), the executor-level order relative to output callbacks and "abandoned after '
+         'the timeout" (kill delivery) are not decided here'),
  'C13': ('header = six little-endian words (command, arg0, arg1, length, byte sum, command xor 0xFFFFFFFF), receipt validation '
          '(short/empty header, unknown command, length or checksum mismatch are rejected), payload-after-header on every exit, '
          'every transport write/read inside one critical section of the writer/reader lock',
